@@ -95,6 +95,14 @@ def fsreal_check(c, seed, n):
             cases.append({"id": len(cases), "watcher": watcher, "throttle_ms": 50, "tail_ms": 700, "ops": [
                 {"at_ms": 300, "op": "mkdir", "path": "sub"}, {"at_ms": 300 + g, "op": "repath", "entries": entries},
                 {"at_ms": 300 + 3 * g, "op": "create", "path": target}]})
+    # a watched path that does not exist yet: its registration fails; once it exists and the same set is applied again it is watched
+    # (native watcher only: notify's poll watcher answers Ok for a missing path and then never looks at it -- library behaviour)
+    for watcher in ("native",):
+        g = 250 if watcher == "native" else 400
+        ent = [{"path": "", "recursive": False}, {"path": "late", "recursive": True}]
+        cases.append({"id": len(cases), "watcher": watcher, "throttle_ms": 50, "tail_ms": 800, "ops": [
+            {"at_ms": 300, "op": "repath", "entries": ent}, {"at_ms": 300 + g, "op": "mkdir", "path": "late"},
+            {"at_ms": 300 + 2 * g, "op": "repath", "entries": ent}, {"at_ms": 300 + 4 * g, "op": "create", "path": "late/f.txt"}]})
     for watcher in ("native", "poll"):
         g = 250 if watcher == "native" else 400
         cases.append({"id": len(cases), "watcher": watcher, "throttle_ms": 50, "tail_ms": 800, "ops": [
